@@ -129,6 +129,7 @@ def main():
             "correspondence_mismatches": len(ctx.mismatches),
             "distribution": dict(ctx.dist),
             "known_findings_reproduced": [k["signature"] for k in ctx.known_hit],
+            "violation_signatures": dict(__import__("collections").Counter(v["signature"] for v in ctx.violations)),
             "notes": ctx.notes,
             "explanation": getattr(mod, "EXPLANATION", ""),
         },
